@@ -165,15 +165,27 @@ def check_call(ctx, lc: LruClass) -> None:
 
 
 def cells(ctx, lc: LruClass, cfg, paths) -> None:
+    global MAX
+    sizes = (1, 2, 3, 5) if getattr(ctx, "tier", "quick") == "thorough" else (2,)
+    for MAX in sizes:
+        _cells(ctx, lc, cfg, paths)
+    MAX = 2
+
+
+def _cells(ctx, lc: LruClass, cfg, paths) -> None:
     u = lc.call
     miss_paths = [p for p in paths if path_kind(lc, p)[0] == "miss"]
     bounded = lc.kind == "cached"
     for present in (False, True):
         for full in ((False, True) if bounded else (False,)):
             ctx.count("cells")
-            size0 = MAX if full else 1
+            size0 = MAX if full else MAX - 1
+            if present and size0 == 0:
+                continue  # infeasible: a present key needs at least one entry
+            if not bounded and MAX != 2:
+                continue
             cell = f"key {'present' if present else 'absent'} after the await" + \
-                (f", size {'= max' if full else '< max'}" if bounded else "")
+                (f", size {'= max' if full else '< max'} (max={MAX})" if bounded else "")
             feasible = 0
             for path in miss_paths:
                 nodes = [n for n, _l in path]
